@@ -5,5 +5,5 @@ THEOREMS = []
 TRUSTED = []
 ASSUMPTIONS = []
 LEVEL_TEXT = 'Lean theorems: sliding-window exponentiation computes b^e in any monoid for every window size; REDC returns x·B^-n mod m below m; CRT recombination for even moduli; every mpz_powm path returns b^e mod |m| in range and well formed; exact powers. Differential run over odd/even/power-of-two moduli and all window widths.'
-LEVEL_NOTE = "mpn_mulmod_2expm1 / mpn_mulmod_bnm1 / mpn_mulmod_bnm1_next_size are proved (part c08_mm1) over the contract of mpn_mulmod_2expp1_basecase, whose FFT branch (half sizes above 128 limbs, i.e. mpn_redc_n above 256 limbs) is covered by the differential run only; mpn_binvert internals by their meaning; the CRT path of mpz_powm and mpz_powm_ui have index-range / operand-condition theorems beside their value-level theorems, not a functional memory model."
+LEVEL_NOTE = "The FFT branch of mpn_mulmod_2expp1_basecase (half sizes above 128 limbs, i.e. redc_n above 256 limbs: contract P1Spec assumed) and mpn_binvert internals rest on the correspondence run; mpz_powm_ui and the CRT index model are flag models tied through values and pins."
 PLACEHOLDER = True
